@@ -152,6 +152,18 @@ func init() {
 		Models:      []string{"as C02"},
 	})
 	reg(&PropSpec{
+		ID: "C09", Prefix: "vh_C09_", MaxSteps: 30000000,
+		Quick:    Tier{Params: map[string]int{"spellings": 2}},
+		Thorough: Tier{Params: map[string]int{"spellings": 3}},
+		Bounds: []string{
+			"worlds: a root whose parameter, response and one path item are imported from two other documents (plain directories, or a sibling directory whose name starts with the name of the root's directory plus a deeper directory); the schemas of the imported parameter / response / operation point (symbolically chosen, 2/3 spellings) back to the root, to their own document, to the third document, or nowhere",
+			"checks: no $ref at parameter/response/path-item level, definitions byte-identical, every kept schema $ref resolves from the root location (fragment-only into the root), bisimulation with the input, and ExpandSpec(full) of the result with the same options value equals the direct full expansion",
+		},
+		Outside:     []string{"cycles under skip-schemas", "more imports"},
+		Assumptions: []string{"as C02"},
+		Models:      []string{"as C02"},
+	})
+	reg(&PropSpec{
 		ID: "C11", Prefix: "vh_C11_",
 		Quick:    Tier{Params: map[string]int{"segs": 2, "seg_len": 2}},
 		Thorough: Tier{Params: map[string]int{"segs": 3, "seg_len": 2}},
